@@ -13,6 +13,12 @@ class C13(Prop):
     id = 'C13'
     lean_modules = ['RSocketModel.Props.C13']
     technique = 'Lean 4 proof (induction over allocate/register/finish histories, parametric id width) + differential correspondence with StreamControl'
+    level_text = ('Theorems c13_alloc_sound, c13_fails_iff_full, c13_history (all id widths k>=1, all active sets, all histories) are kernel-checked on a model '
+                  'of StreamControl; the model is tied to the code by the regenerated constant (2^31-1) and by running the real StreamControl and the compiled '
+                  'Lean model on the same histories (exhaustive short histories on a 3-bit space, random on 3/4/7 bits, full width near the wrap).')
+    level_note = ('Trusted: Lean kernel, axioms propext/Classical.choice/Quot.sound, the hand-written model as far as the correspondence reaches, harness; '
+                  'dict semantics of CPython.')
+    design_ref = '§5 C13'
     rule = ('histories of allocate(+register) / allocate-only / register(id) / finish(id) / query(id) on the real StreamControl with '
             '_maximum_stream_id = 2^k-1 (k in 3,4,7 random; k=3 exhaustive up to length 5; k=31 starting near the wrap); '
             'a case is non-trivial when at least one allocation skipped a live id or 0, wrapped, or failed; distinct = distinct (k, first, ops, start)')
